@@ -110,7 +110,11 @@ Cat ==
   ("bind_suffix_undeclared_prefix" :> M(Q, "survey", FALSE, "ident")) @@
   ("settings_attribute_not_a_name" :> M({}, "form", FALSE, "ident")) @@
   ("label_with_control_character"  :> M(Visible, "survey", FALSE, "kind")) @@
-  ("bg_geopoint_ambiguous_trigger" :> M({}, "form", FALSE, "ident"))
+  ("bg_geopoint_ambiguous_trigger" :> M({}, "form", FALSE, "ident")) @@
+  \* the path of a node is derived from the position of its row: columns that would set it by hand
+  ("bind_nodeset_column"     :> M(Q \cup Begin, "survey", FALSE, "row")) @@
+  ("body_ref_column"         :> M(Visible \cup Begin, "survey", FALSE, "row")) @@
+  ("body_nodeset_column"     :> M({"begin_repeat"}, "survey", FALSE, "row"))
 Muts == DOMAIN Cat
 
 \* row i lies below an open repeat (its parent or any ancestor)
